@@ -207,6 +207,7 @@ PFV = ["2.7.18", "3.6", "3.7.0", "3.7.3", "3.8", "3.8.0", "3.8.10", "3.9.1", "3.
 REL = ["5.4", "5.10.0", "5.15", "6.1", "6.1.0", "10"]
 EXTRAS = ["foo", "Foo", "foo_bar", "foo-bar", "foo.bar", "test", "docs"]
 CMP = ["==", "!=", "<", "<=", ">", ">="]
+NONFINAL = ["3.8.0rc1", "3.9.0b2", "3.10.0.dev1", "3.8.0.post1", "3.9.1a1"]
 
 
 def q(s: str) -> str:
@@ -228,6 +229,21 @@ def atom(rng, profile="all") -> str:
         return f"{q(rng.choice(STR_VARS[name]))} {rng.choice(['in', 'not in'])} {name}"
     if r < 0.62:
         k = rng.random()
+        if k < 0.06:
+            # literal-on-the-left atoms whose specifier view is not exact (fixed defect D21): `~=`, wildcard or
+            # pre/post/dev literal on the left
+            return rng.choice([f'{q(rng.choice(PV[2:]))} ~= python_version', f'{q(rng.choice(PFV))} ~= python_full_version',
+                               f'{q(rng.choice(["3.*", "3.8.*"]))} {rng.choice(["==", "!="])} python_version',
+                               f'{q(rng.choice(["3.8.*", "3.*"]))} {rng.choice(["==", "!="])} python_full_version',
+                               f'{q(rng.choice(NONFINAL))} {rng.choice(CMP)} python_full_version',
+                               f'{q(rng.choice(REL))} {rng.choice(CMP)} platform_release'])
+        if k < 0.12:
+            # python_version operands that are not major.minor (fixed defect D22): three significant components,
+            # a pre/post/dev segment, a deep wildcard -- never merged with python_full_version atoms
+            return rng.choice([f'python_version {rng.choice(CMP)} {q(rng.choice(["3.8.1", "3.9.2", "3.10.0.1"]))}',
+                               f'python_version {rng.choice(CMP)} {q(rng.choice(["3.9rc1", "3.9.0rc1", "3.8.0.post1", "3.10.dev1"]))}',
+                               f'python_version {rng.choice(["==", "!="])} {q(rng.choice(["3.8.1.*", "3.8.0.*"]))}',
+                               f'python_version ~= {q(rng.choice(["3.8.1", "3.8.0", "3.9.2.1"]))}'])
         if k < 0.7:
             op = rng.choice(CMP)
             v = rng.choice(PV)
@@ -275,7 +291,7 @@ def envs_for(texts, rng, limit=40):
     fulls = {"3.8.0", "3.10.4", "2.7.18"}
     for lit in lits:
         for part in lit.split(","):
-            part = re.sub(r"\.?post\d+$", "", part.strip().replace(".*", ""))
+            part = re.sub(r"(\.?(post|dev)\d+|(a|b|rc)\d+)$", "", part.strip().replace(".*", ""))
             if re.fullmatch(r"\d+(\.\d+){0,2}", part):
                 xs = [int(x) for x in part.split(".")] + [0, 0]
                 X, Y, Z = xs[0], xs[1], xs[2]
@@ -338,9 +354,17 @@ def d4a_applies(texts) -> bool:
     for t in texts:
         if re.search(r'(python_version|python_full_version|platform_release) < "[^"]*post[^"]*"', t):
             return True
-        if re.search(r'"[^"]*post[^"]*" > (python_version|python_full_version|platform_release)', t):
-            return True
     return False
+
+
+def model_evaluable(texts) -> bool:
+    """the model's `Atom.eval` covers final candidates only: a literal-on-the-left version atom with a pre/post/dev
+    literal is evaluated by packaging's pre-release rules, outside the model (its structure is still compared)"""
+    import re
+    for t in texts:
+        if re.search(r'"[^"]*\d(a|b|rc|\.?dev|\.?post)\d[^"]*" (==|!=|<=|>=|<|>|~=) (python_version|python_full_version|platform_release)', t):
+            return False
+    return True
 
 
 def known_family(texts, env):
@@ -349,7 +373,24 @@ def known_family(texts, env):
         return "version-in-substring"
     if d4a_applies(texts):
         return "compat-render-postrelease-max"
+    if env is not None and g3_applies(env):
+        return "prerelease-interpreter-exclusive-bound"
     return None
+
+
+def g3_applies(env) -> bool:
+    """G3: the interpreter is a pre-, post- or dev-release (python_full_version "3.13.0rc1"): PEP 440's exclusive ordered
+    comparisons (`<V` rejects pre-releases of V, `>V` rejects post-releases of V) are not interval tests"""
+    import re
+    v = env.get("python_full_version")
+    return isinstance(v, str) and re.fullmatch(r"\d+(\.\d+)*", v) is None
+
+
+# (operand, operand, kind, interpreter) on which the simplified result differs from the operands (known finding G3)
+G3_CASES = [('python_full_version < "3.13"', 'python_full_version >= "3.13"', "or", "3.13.0rc1"),
+            ('python_full_version > "3.12.0"', 'python_full_version <= "3.12.0"', "or", "3.12.0.post1"),
+            ('python_full_version < "3.13"', 'python_full_version == "3.13.0"', "or", "3.13.0rc1"),
+            ('python_version < "3.13"', 'python_full_version >= "3.13"', "or", "3.13.0rc1")]
 
 
 # (lower atom, post-release upper atom, environment in which the merged atom differs from the operands)
